@@ -1,4 +1,5 @@
 """C01 write-through: after every mutator returns, the resource (read independently) is the model."""
+import copy
 import os
 
 from hypothesis import strategies as st
@@ -21,7 +22,12 @@ RULE = ("Hypothesis-generated programs: one root object of each of the 18 classe
         "distinct = distinct (class, initial document, step list). Second part (complete product): "
         "every mutator at root/nested targets with the k-th file-system call of its save failing "
         "with OSError, for every k (JSON classes), or the store's write call failing (fakes): a call "
-        "that RETURNS normally must still have put the new content into the resource.")
+        "that RETURNS normally must still have put the new content into the resource. One step in "
+        "twenty of the first part starts a script: a mutation, an outside writer's rewrite of the "
+        "resource, the same mutation again. Third part (buffered classes): unbuffered mutations "
+        "between buffered sessions (per-object / backend-wide contexts, capacities), a fifth of whose "
+        "exits hit an injected I/O error: once no context is open, every mutation must again be in "
+        "the backend when it returns.")
 ASSUMPTIONS = [
     "Redis/MongoDB/Zarr are exercised against call-compatible fakes (no servers offline)",
     "MongoDB value domain excludes ints beyond 64 bits and NUL in keys (BSON limits, documented by the repo)",
@@ -32,7 +38,8 @@ ASSUMPTIONS = [
 def shards(tier):
     reps = 1 if tier == "quick" else 6
     return [{"cls": c.name, "rep": r} for c in ALL for r in range(reps)] + \
-           [{"cls": c.name, "mode": "faults"} for c in ALL]
+           [{"cls": c.name, "mode": "faults"} for c in ALL] + \
+           [{"cls": c.name, "mode": "sessions", "rep": r} for c in ALL if c.buffered for r in range(reps)]
 
 
 # ---- write faults: a mutator that RETURNS must have written, whatever failed underneath
@@ -129,14 +136,35 @@ def _post(w):
             raise Mismatch("stray_files", files=stray)
 
 
-def _gen_step(dom, wc=False):
+def _gen_step(dom, wc=False, st8=None):
+    st8 = st8 if st8 is not None else {}
+
     def g(draw, w):
         if not w.handles:
             s = {"t": "new", "r": 0, "id": w.next_id()}
             if wc and w.ci.backend == "json":
                 s["kw"] = {"write_concern": True}
             return s
-        c = draw(st.integers(0, 9))
+        q = st8.setdefault("queue", [])
+        while q:
+            s = q.pop(0)
+            if s == "REWRITE":
+                from .c02 import draw_rewrite
+                return draw_rewrite(draw, w, dom)
+            if w.usable(s["h"]):
+                return copy.deepcopy(s)
+        c = draw(st.integers(0, 19))
+        if c == 19 and not w.poisoned:
+            # the same mutation again after an OUTSIDE writer changed the resource in between: the
+            # second call, too, must have reached the backend when it returns
+            roots = [i for i in w.attached_handles() if not w.handles[i].path]
+            hi = draw(st.sampled_from(roots)) if roots and draw(st.booleans()) else gen.pick_handle(draw, w)
+            if hi is not None:
+                x = gen.draw_mutator(draw, w, hi, dom, p_raise=0)
+                q.extend(["REWRITE", copy.deepcopy(x)])
+                st8["aba"] = st8.get("aba", 0) + 1
+                return x
+        c = c % 10
         if c < 3:
             s = gen.draw_take(draw, w)
             if s is not None:
@@ -145,6 +173,58 @@ def _gen_step(dom, wc=False):
         if hi is None:
             return None
         return gen.draw_mutator(draw, w, hi, dom, p_raise=1, tuples=True, p_inv=3)
+    return g
+
+
+def _gen_step_sessions(dom):
+    """Unbuffered mutations BETWEEN buffered sessions (per-object and backend-wide contexts, with
+    capacities and capacity changes); a fifth of the context exits hit an injected I/O error. Once no
+    context is open every mutation must be in the backend when it returns - also after an exit that
+    failed (checked by the world's aftermath probes)."""
+    q = []
+    started = [False]
+
+    def g(draw, w):
+        roots = w.roots()
+        if not roots:
+            return {"t": "new", "r": 0, "id": w.next_id()}
+        if q:
+            s = q.pop(0)
+            if s == "MUT":
+                return gen.draw_mutator(draw, w, roots[0], dom, p_raise=0)
+            return s
+        if not started[0]:
+            started[0] = True
+            if draw(st.sampled_from([0, 1, 2])) == 1:
+                # steered: a small permanent capacity, a session with a larger temporary one whose
+                # exit (which restores the small capacity and flushes) hits an I/O error
+                q.extend([{"t": "enter_cls", "h": roots[0], "cap": 10**6}, "MUT"] +
+                         (["MUT"] if draw(st.booleans()) else []) +
+                         [{"t": "exit", "fault_k": draw(st.integers(1, 6))}])
+                return {"t": "setcap", "n": draw(st.sampled_from([0, 1, 2, 40]))}
+        c = draw(st.integers(0, 19))
+        # (one object: a second, unbuffered writer on a buffered file is C07's subject)
+        if c < 3 and len(w.stack) < 3:
+            return {"t": "enter_obj", "h": draw(st.sampled_from(roots))}
+        if c < 5 and len(w.stack) < 3:
+            s = {"t": "enter_cls", "h": roots[0]}
+            if draw(st.booleans()):
+                s["cap"] = draw(st.sampled_from([0, 1, 2, 40, 100, 10**6]))
+            return s
+        if c < 9 and w.stack:
+            if draw(st.integers(0, 4)) == 0:
+                return {"t": "exit", "fault_k": draw(st.integers(1, 6))}
+            return {"t": "exit"}
+        if c == 9:
+            return {"t": "setcap", "n": draw(st.sampled_from([0, 1, 2, 40, 100, 10**6]))}
+        if c < 12:
+            s = gen.draw_take(draw, w)
+            if s is not None:
+                return s
+        hi = gen.pick_handle(draw, w)
+        if hi is None:
+            return None
+        return gen.draw_mutator(draw, w, hi, dom, p_raise=1)
     return g
 
 
@@ -169,6 +249,28 @@ def run_shard(spec, seed, tier, active):
         return acc.result()
     n = 60 if tier == "quick" else 400
     max_steps = 30 if tier == "quick" else 50
+    if spec.get("mode") == "sessions":
+        def one_s(data):
+            draw = data.draw
+            init = draw(st.one_of(st.just(ABSENT), dom.doc(ci.kind), dom.doc(ci.kind)))
+            w = wm.run_generated(ID, ci, [init], _gen_step_sessions(dom), draw, max_steps,
+                                 engine="bufworld", check_frozen=False, check_outcome=False)
+            unbuf_after = 0
+            seen_exit = False
+            for s in w.log:
+                seen_exit = seen_exit or s["t"] == "exit"
+            unbuf_after = w.events.get("aftermath_write_probe", 0)
+            nt = seen_exit
+            cnt = {"sessions.cases": 1, "sessions.failed_exits": w.events.get("faulted_exit", 0),
+                   "sessions.write_through_probes_after_failed_exit": unbuf_after,
+                   "sessions.exits": w.events.get("exit_obj", 0) + w.events.get("exit_cls", 0)}
+            acc.case([h64(ci.name, "sessions", w.log)] if nt else (),
+                     {"class": ci.name, "part": "sessions", "steps": w.log[:12]} if nt else None, cnt)
+
+        fail = hyp_search(one_s, n // 2, seed)
+        if fail is not None:
+            acc.failures.append(wm.minimize_world(fail))
+        return acc.result()
 
     def one(data):
         draw = data.draw
@@ -176,11 +278,13 @@ def run_shard(spec, seed, tier, active):
         # write configurations of the JSON backend: write_concern on/off x threading support on/off
         wc = draw(st.booleans())
         threading_off = ci.backend == "json" and draw(st.integers(0, 2)) == 0
-        w = wm.run_generated(ID, ci, [init], _gen_step(dom, wc), draw, max_steps, post=_post,
+        st8 = {}
+        w = wm.run_generated(ID, ci, [init], _gen_step(dom, wc, st8), draw, max_steps, post=_post,
                              threading_off=threading_off)
         nt = _nt(w)
         sample = {"class": ci.name, "initial": repr(init), "steps": w.log[:12]} if nt else None
-        cnt = {f"{ci.name}": 1, f"write_concern={wc}": 1, f"threading_off={threading_off}": 1}
+        cnt = {f"{ci.name}": 1, f"write_concern={wc}": 1, f"threading_off={threading_off}": 1,
+               "same_mutation_repeated_after_outside_rewrite": st8.get("aba", 0)}
         for (k, v) in w.events.items():
             if isinstance(k, tuple):
                 cnt[f"{k[1]}.{k[2]}"] = v
